@@ -86,7 +86,7 @@ func utf8Validated(fd protoreflect.FieldDescriptor) bool {
 	if xtd, ok := fd.(protoreflect.ExtensionTypeDescriptor); ok {
 		fd = xtd.Descriptor()
 	}
-	switch fd.ParentFile().Syntax() {
+	switch fd.Syntax() { // (descriptors derived from legacy extension descs have no parent file)
 	case protoreflect.Proto2:
 		return false
 	case protoreflect.Proto3:
